@@ -79,6 +79,9 @@ type c11Case struct {
 	Strat int
 	// Future (real-file variant only): every modification time lies decades ahead of the wall clock
 	Future bool `json:",omitempty"`
+	// Preamble (real-file variant only): whole lines in front of the hash line of every artifact (a comment somebody put there,
+	// empty lines): 0 none, 1 a comment line, 2 an empty line, 3 an empty CRLF line, 4 two comment lines
+	Preamble int `json:",omitempty"`
 }
 
 var artNames = []string{"absent", "cert+key", "cert+CSR", "key-only", "cert-only"}
@@ -339,7 +342,7 @@ func checkC11(c c11Case) *core.Failure {
 func TestC11(t *testing.T) {
 	r := core.Start(t, "C11")
 	defer r.Finish()
-	r.Rule = "(a) exhaustive decision table on a synthetic db.Database: singletons and every issuer/subject pair over artifact state {absent, cert+key, cert+CSR, key only, cert only} x stored hash {none, equal, different} x config newer/older than artifact x expiry {valid, expired with unexpired config, expired with expired config, expired with a config that ends later than the certificate but still in the past} per entity (plus config and artifact with the same timestamp) x issuer artifact {older, equal, newer} than the subject's x all 32 strategy values (quick: a 1/8 slice chosen by index stride; thorough: all). (b) random forests of up to 5 entities in up to 4 tiers over the same state space (propagation, ordering). (c) the same states materialised as real artifact files and mtimes and planned through the filesystem database; (d) a native directory whose config is a symbolic link to a file elsewhere, target modified before/after the artifact, six flag sets. Oracle: the decision function written from the statement, three-valued (unspecified only where an artifact time is compared with an absent artifact). (d) failing runs: in chains of 3-6 tiers (optionally with side leaves) one planned entity cannot be generated (signature algorithm that does not fit the issuer key, content-less profile entry, write error on its artifact); the run must report failure and, judged by the files, nothing may have been rewritten below an issuer that was not itself rewritten. Non-trivial = plan in which at least one entity is regenerated and at least one is not; distinct by the full state."
+	r.Rule = "(a) exhaustive decision table on a synthetic db.Database: singletons and every issuer/subject pair over artifact state {absent, cert+key, cert+CSR, key only, cert only} x stored hash {none, equal, different} x config newer/older than artifact x expiry {valid, expired with unexpired config, expired with expired config, expired with a config that ends later than the certificate but still in the past} per entity (plus config and artifact with the same timestamp) x issuer artifact {older, equal, newer} than the subject's x all 32 strategy values (quick: a 1/8 slice chosen by index stride; thorough: all). (b) random forests of up to 5 entities in up to 4 tiers over the same state space (propagation, ordering). (c) the same states materialised as real artifact files and mtimes and planned through the filesystem database, optionally with comment or empty lines in front of the hash line; (d) a native directory whose config is a symbolic link to a file elsewhere, target modified before/after the artifact, six flag sets. Oracle: the decision function written from the statement, three-valued (unspecified only where an artifact time is compared with an absent artifact). (d) failing runs: in chains of 3-6 tiers (optionally with side leaves) one planned entity cannot be generated (signature algorithm that does not fit the issuer key, content-less profile entry, write error on its artifact); the run must report failure and, judged by the files, nothing may have been rewritten below an issuer that was not itself rewritten. Non-trivial = plan in which at least one entity is regenerated and at least one is not; distinct by the full state."
 	r.Assumptions = []string{"when an entity has no artifact file at all, reasons that compare its artifact time (issuer newer, config newer) are unspecified"}
 	wrap := func(c c11Case) *core.Failure {
 		want := c11Oracle(c)
@@ -466,6 +469,7 @@ func TestC11(t *testing.T) {
 			c.Ents = append(c.Ents, st)
 		}
 		c.Future = rapid.IntRange(0, 3).Draw(t, "future-mtimes") == 0
+		c.Preamble = rapid.SampledFrom([]int{0, 0, 0, 1, 2, 3, 4}).Draw(t, "preamble")
 		return c
 	}
 	core.Rapid(r, "failing-run", r.Pick(150, 6000), func(t *rapid.T) c11Fail {
@@ -531,6 +535,9 @@ func checkC11Real(r *core.Runner, c c11Case) *core.Failure {
 			e.Validity = &core.Validity{From: "2020-01-02", Until: "2023-05-06"}
 		}
 		var buf []byte
+		if st.Hash != 0 {
+			buf = append(buf, []string{"", "# generated - do not edit by hand\n", "\n", "\r\n", "# note 1\n# note 2\n"}[c.Preamble]...)
+		}
 		switch st.Hash {
 		case 1:
 			// the stored hash must equal the hash of the *current* configuration: regenerate quietly when the config changed
